@@ -318,7 +318,7 @@ impl IndentationVisitor {
 
             // Avoid processing the same line twice
             if !self.processed_lines.contains(&line_num) {
-                let current_indent = arg.expr.position.column;
+                let current_indent = line_indent_at(&self.src, arg.expr.position.start_offset);
 
                 // Only adjust indentation if it's less than the target
                 // (don't reduce indentation if already more indented)
@@ -338,7 +338,7 @@ impl IndentationVisitor {
         if close_line != paren_args.open_paren.line_number
             && !self.processed_lines.contains(&close_line)
         {
-            let current_indent = paren_args.close_paren.column;
+            let current_indent = line_indent_at(&self.src, paren_args.close_paren.start_offset);
             let target_close_indent = self.current_depth * 2;
 
             if current_indent < target_close_indent {
@@ -381,7 +381,7 @@ impl Visitor for IndentationVisitor {
         let line_num = expr.position.line_number;
 
         if !self.processed_lines.contains(&line_num) {
-            let current_indent = expr.position.column;
+            let current_indent = line_indent_at(&self.src, expr.position.start_offset);
 
             if current_indent != 0 {
                 self.line_edits.push(LineEdit {
@@ -418,7 +418,7 @@ impl Visitor for IndentationVisitor {
             // Avoid processing the same line twice
             if !self.processed_lines.contains(&line_num) {
                 let target_indent = self.current_depth * 2;
-                let current_indent = expr.position.column;
+                let current_indent = line_indent_at(&self.src, expr.position.start_offset);
 
                 if current_indent != target_indent {
                     self.line_edits.push(LineEdit {
@@ -439,7 +439,7 @@ impl Visitor for IndentationVisitor {
         let close_line = block.close_brace.line_number;
         if !self.processed_lines.contains(&close_line) {
             let target_indent = self.current_depth * 2;
-            let current_indent = block.close_brace.column;
+            let current_indent = line_indent_at(&self.src, block.close_brace.start_offset);
 
             if current_indent != target_indent {
                 self.line_edits.push(LineEdit {
@@ -471,7 +471,8 @@ impl Visitor for IndentationVisitor {
                 let pattern_line = pattern.variant_sym.position.line_number;
                 if !self.processed_lines.contains(&pattern_line) {
                     let target_indent = self.current_depth * 2;
-                    let current_indent = pattern.variant_sym.position.column;
+                    let current_indent =
+                        line_indent_at(&self.src, pattern.variant_sym.position.start_offset);
 
                     if current_indent != target_indent {
                         self.line_edits.push(LineEdit {
@@ -617,6 +618,16 @@ impl Visitor for IndentationVisitor {
     }
 }
 
+/// The width of the leading whitespace of the line that contains
+/// `offset`. An indentation edit replaces exactly this whitespace, so
+/// it (rather than the column of a token, which need not be the first
+/// token on its line) decides whether the line needs an edit.
+fn line_indent_at(src: &str, offset: usize) -> usize {
+    let line_start = src[..offset].rfind('\n').map_or(0, |i| i + 1);
+    let line = &src[line_start..offset];
+    line.len() - line.trim_start().len()
+}
+
 /// Collect indentation edits for comments in the source.
 ///
 /// Comments are not part of the AST, so we need to process them
@@ -654,7 +665,7 @@ fn collect_comment_edits(
                     target_indent += 2;
                 }
 
-                let current_indent = comment_pos.column;
+                let current_indent = line_indent_at(src, comment_pos.start_offset);
 
                 if current_indent != target_indent {
                     line_edits.push(LineEdit {
@@ -674,7 +685,7 @@ fn collect_comment_edits(
         let line_num = comment_pos.line_number;
 
         if !processed_lines.contains(&line_num) {
-            let current_indent = comment_pos.column;
+            let current_indent = line_indent_at(src, comment_pos.start_offset);
 
             if current_indent != 0 {
                 line_edits.push(LineEdit {
